@@ -29,6 +29,7 @@ func init() {
 
 func runC16(c *eng.Ctx, thorough bool) {
 	c16Association(c)
+	c16CRLIdentity(c)
 	V, ok := c.P.ConstValue("pki.revokedPath")
 	if !ok {
 		c.Unresolved("pki.revokedPath")
